@@ -320,7 +320,10 @@ class SchemaBuilder(
     def collection(
         self, cls: Type[Collection], value_type: AnyType
     ) -> TypeFactory[GraphQLTp]:
-        return TypeFactory(lambda *_: graphql.GraphQLList(self.visit(value_type).type))
+        # visited now, while the dynamic conversion in effect (operation / field
+        # conversion aimed at the elements) is still the current one
+        value_factory = self.visit(value_type)
+        return TypeFactory(lambda *_: graphql.GraphQLList(value_factory.type))
 
     @cache_type
     def enum(self, cls: Type[Enum]) -> TypeFactory[GraphQLTp]:
